@@ -10,6 +10,8 @@ pub enum Tf {
     Adobe,
     P3Gamma,
     ProPhoto,
+    /// palette's `GammaFn<F2p2>` as documented: "encoded using V^γ", γ = 2.2 (no published standard)
+    Gamma22,
 }
 
 pub const REC_BETA: f64 = 0.018053968510807;
@@ -24,6 +26,7 @@ impl Tf {
             Tf::Adobe => "AdobeRgb",
             Tf::P3Gamma => "P3Gamma",
             Tf::ProPhoto => "ProPhotoRgb",
+            Tf::Gamma22 => "GammaFn<F2p2>",
         }
     }
     /// linear -> encoded
@@ -47,6 +50,7 @@ impl Tf {
             // pure power laws are extended to negative values by odd symmetry (as CSS Color 4 does)
             Tf::Adobe => x.abs().powf(256.0 / 563.0).copysign(x),
             Tf::P3Gamma => x.abs().powf(1.0 / 2.6).copysign(x),
+            Tf::Gamma22 => x.powf(2.2),
             Tf::ProPhoto => {
                 if x < 1.0 / 512.0 {
                     16.0 * x
@@ -76,6 +80,7 @@ impl Tf {
             }
             Tf::Adobe => y.abs().powf(563.0 / 256.0).copysign(y),
             Tf::P3Gamma => y.abs().powf(2.6).copysign(y),
+            Tf::Gamma22 => y.powf(1.0 / 2.2),
             Tf::ProPhoto => {
                 if y < 1.0 / 32.0 {
                     y / 16.0
